@@ -113,7 +113,26 @@ def _state(p):
     kind = p["kind"]
     rng = np.random.default_rng([p.get("seed", 0), dA, dB, {"sep": 1, "npt": 2, "mixed": 3, "ppt-noisy": 4}[kind], p.get("terms", 0) + p.get("rank", 0) + p.get("r", 0)])
     real = bool(p.get("real"))
-    if kind == "sep":
+    if kind == "sep" and p.get("sepform") == "same-factor":
+        # tau (x) tau for one full-rank complex state tau: a product state that is symmetric under exchanging the parties
+        # (its realignment is a complex SYMMETRIC, non-Hermitian matrix)
+        def near_pure():
+            v = rng.standard_normal(dA) + (0 if real else 1j * rng.standard_normal(dA))
+            v = v / np.linalg.norm(v)
+            return 0.9 * np.outer(v, v.conj()) + 0.1 * np.eye(dA) / dA
+
+        k = max(1, int(p.get("terms", 1)))
+        # far from the maximally mixed state (outside the separable ball), so that the verdict has to come from the later criteria
+        rho = sum(np.kron(t, t) for t in (near_pure() for _ in range(k))) / k
+        truth, lam = "separable", None
+    elif kind == "sep" and p.get("sepform") == "isotropic":
+        # (1 - q) I/d^2 + q |Phi><Phi| is separable iff q <= 1/(d + 1); outside the separable ball for q > 1/(d^2 - 1)
+        d_ = dA
+        phi = np.eye(d_).reshape(-1) / np.sqrt(d_)
+        q_ = float(p["q"])
+        rho = (1 - q_) * np.eye(d_ * d_) / (d_ * d_) + q_ * np.outer(phi, phi)
+        truth, lam = "separable", None
+    elif kind == "sep":
         rho = _sep_state(dA, dB, p["terms"], rng, real)
         truth, lam = "separable", None
     elif kind == "npt":
@@ -719,6 +738,14 @@ def cases(tier, seed):
             for terms in (2, 4):
                 add("sep.accepts_separable", dict(dims=d, kind="sep", terms=terms, real=False, seed=seed, dimform=df), _sep_class(dA, dB, terms) + "/dim=" + df, True)
         add("sep.accepts_separable", dict(dims=d, kind="sep", terms=2, real=False, seed=seed + 5, dimform="list", scale=3.0), _sep_class(dA, dB, 2) + "/trace=3", True)
+    # product states symmetric under party exchange, and separable isotropic states between the separable ball and the boundary 1/(d+1)
+    for dd in (2, 3):
+        for real in (False, True):
+            add("sep.accepts_separable", dict(dims=[dd, dd], kind="sep", sepform="same-factor", terms=1, real=real, seed=seed, dimform="list"), "is_separable/separable/%dx%d/same-factor-product" % (dd, dd), True)
+            add("sep.lu_invariant", dict(dims=[dd, dd], kind="sep", sepform="same-factor", terms=1, real=real, seed=seed, dimform="list"), "is_separable/separable/%dx%d/same-factor-product" % (dd, dd), True)
+            add("sep.accepts_separable", dict(dims=[dd, dd], kind="sep", sepform="same-factor", terms=2, real=real, seed=seed + 1, dimform="list"), "is_separable/separable/%dx%d/same-factor-mixture" % (dd, dd), True)
+        for q_ in ((0.2, 0.3) if dd == 2 else (0.15, 0.2, 0.24)):
+            add("sep.accepts_separable", dict(dims=[dd, dd], kind="sep", sepform="isotropic", terms=0, q=q_, real=True, seed=seed, dimform="list"), "is_separable/separable/%dx%d/isotropic-below-1/(d+1)" % (dd, dd), True)
     # ------------------------------------------------------------------ NPT states are rejected
     for dA, dB in DIMS:
         d = [dA, dB]
